@@ -19,6 +19,15 @@ Scope B: seeded rankings over 3..6 atoms (shuffled signature order; dense, gappe
 constant, min>0 rankings) x random formulas / conditionals / proper atom subsets; rankings produced by the
 real System Z and random-min-c-representation classes for small consistent bases (after compute_all_ranks(),
 plus the lazily evaluated object for the operations that go through rank_world).
+
+Deliberately not judged (no expected value follows from the wording of C18):
+  * formulas mentioning an atom outside the signature (the property defines ranks via the models among the
+    worlds of the signature; such a formula has no truth value in them);
+  * partial rank assignments (the quantifier says total assignments).  One consequence is only RECORDED in
+    `extra["observation_lazy_marginalize"]`, not reported as a violation: `marginalize` /
+    `conditionalize_existing_ranks` read the stored rank table, so on a System Z / c-representation object
+    whose ranks have not been computed yet (`compute_all_ranks()` not called) `marginalize` silently returns
+    an empty ranking.
 """
 from __future__ import annotations
 
